@@ -42,3 +42,23 @@ Proof.
     apply filter_ext'. intros e. apply Z.geb_leb.
   - intros x Hx. apply in_flat_map in Hx as (j & _ & Hx). apply in_map_iff in Hx as (g & <- & Hg). eapply Hs. exact Hg.
 Qed.
+
+(* MosaikRemote.set_data: one write, as the data plane's DSetData event - refused unless the caller is an async-requests
+   successor of the destination (every async-requests successor is a successor: World.connect_one enters both) *)
+Theorem tie_set_data st dt s ds i w j a v successors :
+  (forall x, In x (map fst (succ_wait st j)) -> In x successors) ->
+  dapply st dt (s, ds) (DSetData i w j a v) =
+  match Gen.InputData.set_data_write successors (map fst (succ_wait st j)) (setdata (ds j)) i (w * nsims st + i)%nat a v with
+  | Some sd' => let x := ds j in DOk s (dupd ds j (mkD (outputs x) (buffer x) (bcount x) (persist x) sd')) None
+  | None => DAsyncRefused i j
+  end.
+Proof.
+  intros Hsub. unfold dapply, Gen.InputData.set_data_write, Gen.InputData.async_requests_refused.
+  assert (He : existsb (fun jd : nat * interval => Nat.eqb (fst jd) i) (succ_wait st j) = existsb (Nat.eqb i) (map fst (succ_wait st j))).
+  { clear Hsub. induction (succ_wait st j) as [|[k d] l IH]; [reflexivity|]. cbn [existsb map fst]. rewrite IH, (Nat.eqb_sym k i). reflexivity. }
+  rewrite He. destruct (existsb (Nat.eqb i) (map fst (succ_wait st j))) eqn:E.
+  - assert (Hs : existsb (Nat.eqb i) successors = true).
+    { apply existsb_exists in E as (x & Hx & Ex). apply Nat.eqb_eq in Ex. subst x. apply existsb_exists. exists i. split; [apply Hsub, Hx|apply Nat.eqb_refl]. }
+    rewrite Hs. reflexivity.
+  - rewrite orb_true_r. reflexivity.
+Qed.
